@@ -17,7 +17,7 @@ def ctl_text(kind, n):
     return CTL_TEXT[kind] % n
 
 
-def make(ctl, plain, mode="constant", maxp=1, layer=False, th=None):
+def make(ctl, plain, mode="constant", maxp=1, layer=False, th=None, red=None):
     """ctl: names from CTL; plain: {key name: action desc}; layer: add lsft = (layer-while-held l1) with a second
     mapping of the plain keys; th: (key, T, tap, hold) one tap-hold key.
     Returns (desc for the .kbd text, monitor parameters) - two independent renderings of the description."""
@@ -47,11 +47,13 @@ def make(ctl, plain, mode="constant", maxp=1, layer=False, th=None):
         l0ref[k] = {"t": "xx"}
         ths.append({"c": cfgdesc.code(k), "T": T, "tap": cfgdesc.code(tap), "hold": cfgdesc.code(hold)})
     defcfg = {"dynamic-macro-max-presses": maxp, "dynamic-macro-replay-delay-behaviour": mode}
+    if red is not None:
+        defcfg["rapid-event-delay"] = red
     desc = {"keys": keys, "layers": layers, "defcfg": defcfg}
     refdesc = {"keys": keys, "layers": layersref, "defcfg": {}}
     params = {"c04": cfgdesc.c04_params(refdesc),
               "ctl": [{"c": cfgdesc.code(CTL[n][0]), "k": CTL[n][1], "n": CTL[n][2]} for n in ctl],
-              "th": ths, "max": maxp, "recorded": mode == "recorded",
+              "th": ths, "max": maxp, "recorded": mode == "recorded", "red": 5 if red is None else red,
               # the gaps between recorded events are only read for time-sensitive keys replayed with recorded delays
               "gcap": (th[1] + 2) if (th and mode == "recorded") else 0}
     return desc, params
@@ -108,7 +110,7 @@ def instance(name, desc, params, D=1, qmax=1, maclen=3, free_replay=False, saves
             "monitor": {"module": "P_C19", "params": params},
             "constraint": "DynBound\nACTION_CONSTRAINT SyncDone", "extra_defs": bound + "\n" + probe, "extra_guard": "/\\ FALSE",
             "extra_actions": env, "extra_next": "\\/ (\\E c \\in EnvKeys : EPress(c) \\/ ERelease(c))",
-            "invariants": [], "drift_limit": drift_limit}
+            "invariants": [], "drift_limit": drift_limit, "extra_tags": ["SYNCDONE"]}
 
 
 def family(tier):
@@ -416,7 +418,7 @@ def run(tier, seed):
         res.add_instance(r)
         log("[c19] %s: %s" % (name, {k: r.get(k) for k in ("states", "generated", "edges", "replayed", "drift", "n_monerr",
                                                          "n_panic", "tlc_wall_s", "wall_s")}))
-        nsync = extract_prints(r["tlc_out"], "SYNCDONE", r["tlc_out"] + ".syncdone")
+        nsync = r["n_syncdone"]
         res.extra.setdefault("replays_followed_to_the_end_by_the_monitor", {})[name] = nsync
         if nsync == 0:
             raise ToolError("vacuous instance %s: the monitor never followed a replay to its end" % name)
